@@ -28,14 +28,16 @@ Lemma temp_map_spec s A own F :
                 resolve s1 (add64 (frame_addr temp_page) last_entry_off) = Some (F, 511) /\
                 (forall q, hw_idx q 0 <> 511 -> ~ same_page q temp_page -> translation s1 A q = translation s A q) /\
                 flog s1 = vmm_tempMappingAddr :: flog s) /\
-    (err <> 0 -> pg = 0 /\ (forall q, hw_idx q 0 <> 511 -> translation s1 A q = translation s A q) /\ flog s1 = flog s).
+    (err <> 0 -> pg = 0 /\ (forall q, hw_idx q 0 <> 511 -> translation s1 A q = translation s A q) /\ flog s1 = flog s) /\
+    (length (orc s) <= length (orc s1) + 3)%nat /\
+    ((3 <= length (orc s))%nat -> Forall (fun x => x <> 0) (firstn 3 (orc s)) -> err = 0).
 Proof.
   intros HI Hg HbF HoF HnF.
   pose proof (inv_wf _ _ _ _ HI) as W.
   assert (HF40: F < 2 ^ 40) by (eapply backed_lt40; [exact (wf_arena _ _ _ W) | exact HbF]).
   assert (Hzg: zero_guard s F P_RW = false) by (unfold zero_guard; rewrite Hg; reflexivity).
   destruct (map_ok s A A own temp_page F P_RW HI temp_idx0 Hzg) as
-      (s1 & err & own1 & Hrun & HI1 & Henv & Herr & Hok & Hfail & Hfr & _ & (n & Hn & Hown) & _).
+      (s1 & err & own1 & Hrun & HI1 & Henv & Herr & Hok & Hfail & Hfr & _ & (n & Hn & Hown) & _ & _ & Hb1 & Hb2).
   assert (Ho1F: own1 F = None).
   { destruct (Hown F) as [E | (_ & Hin & _)]; [rewrite E; exact HoF | exfalso; apply HnF; eapply in_firstn; exact Hin]. }
   assert (Hn1F: ~ In F (orc s1)) by (rewrite Hn; intros Hin; apply HnF; eapply skipn_in; exact Hin).
@@ -44,7 +46,7 @@ Proof.
   - subst err. exists s1, 0, temp_page, own1.
     split; [reflexivity|]. split; [left; reflexivity|]. split; [exact HI1|]. split; [exact Henv|].
     split; [exact Ho1F|]. split; [exact Hn1F|]. split; [exact Hfr|]. split; [exists n; split; assumption|].
-    split; [|intros H; congruence]. intros _.
+    split; [|split; [intros H; congruence | split; assumption]]. intros _.
     destruct (Hok eq_refl) as (Hat & Htr & Hfl).
     destruct (link_entry F HF40) as (LP & LPS & LF).
     assert (Hbk1: backed s1 F = true) by (rewrite (same_env_backed s s1 F Henv); exact HbF).
@@ -59,7 +61,7 @@ Proof.
   - exists s1, err, 0, own1.
     split; [reflexivity|]. split; [exact Herr|]. split; [exact HI1|]. split; [exact Henv|].
     split; [exact Ho1F|]. split; [exact Hn1F|]. split; [exact Hfr|]. split; [exists n; split; assumption|].
-    split; [intros H; congruence|]. intros _. destruct (Hfail E0) as (Htr & Hfl). split; [reflexivity|]. split; assumption.
+    split; [intros H; congruence|]. split; [|split; assumption]. intros _. destruct (Hfail E0) as (Htr & Hfl). split; [reflexivity|]. split; assumption.
 Qed.
 
 (** an address space with nothing mapped *)
@@ -85,7 +87,9 @@ Theorem pdt_init_spec s A own slot F :
        translation s' A temp_page = None /\
        (forall f i, own1 f = None -> f <> F -> ent s' f i = ent s f i)) /\
     (err <> 0 -> Inv s' A A own1 /\ (forall q, hw_idx q 0 <> 511 -> translation s' A q = translation s A q) /\
-                 (forall f i, own1 f = None -> ent s' f i = ent s f i)).
+                 (forall f i, own1 f = None -> ent s' f i = ent s f i)) /\
+    (length (orc s) <= length (orc s') + 3)%nat /\
+    ((3 <= length (orc s))%nat -> Forall (fun x => x <> 0) (firstn 3 (orc s)) -> err = 0).
 Proof.
   intros HI Hg HbF HoF HnF.
   pose proof (inv_wf _ _ _ _ HI) as W.
@@ -99,7 +103,7 @@ Proof.
     rewrite frame_addr_small by (change (2 ^ 40) with 1099511627776 in HF40; change (2 ^ 52) with 4503599627370496; lia).
     rewrite N.shiftr_shiftl_l by lia. replace (12 - 12) with 0 by lia. symmetry. apply N.shiftl_0_r. }
   destruct (temp_map_spec s0 A own F HI0 Hg HbF HoF HnF) as
-      (s1 & err & pg & own1 & Hrun & Herr & HI1 & Henv1 & Ho1F & Hn1F & Hfr1 & (n & Hn & Hown) & Hok & Hfail).
+      (s1 & err & pg & own1 & Hrun & Herr & HI1 & Henv1 & Ho1F & Hn1F & Hfr1 & (n & Hn & Hown) & Hok & Hfail & Hb1 & Hb2).
   unfold pdt_init. fold s0. rewrite Hact, Hrun.
   destruct Henv1 as (E1 & E2 & E3 & E4 & E5 & Ez & Ep & Epd & Ein).
   destruct (N.eqb_spec err 0) as [E0|E0]; cbn [negb].
@@ -108,7 +112,8 @@ Proof.
       split; [intros k Hk; rewrite Epd; unfold s0; cbn [pdts set_pdt]; destruct (N.eqb_spec k slot); [congruence|reflexivity]|].
       split; [exact E1|]. split; [exact E2|]. split; [exact E3|]. split; [exact Ez|]. split; [exact Ep|]. split; [exact E5|]. split; [exact E4|].
       split; [exists n; split; assumption|].
-      split; [intros H; congruence|]. intros _. destruct (Hfail E0) as (_ & Htr & _). split; [exact HI1|]. split; [exact Htr | exact Hfr1]. }
+      split; [intros H; congruence|]. split; [|split; assumption].
+      intros _. destruct (Hfail E0) as (_ & Htr & _). split; [exact HI1|]. split; [exact Htr | exact Hfr1]. }
   subst err. destruct (Hok eq_refl) as (Epg & Hrp & Hre & Htr1 & Hfl1). subst pg.
   rewrite Hrp, Hre.
   set (rec := set_frame (set_flags 0 P_RW) F).
@@ -131,7 +136,7 @@ Proof.
   split; [rewrite G1; exact E1|]. split; [rewrite G2; exact E2|]. split; [rewrite G3; exact E3|].
   split; [rewrite Gz; exact Ez|]. split; [rewrite Gp; exact Ep|]. split; [rewrite G5; exact E5|]. split; [rewrite G4; exact E4|].
   split; [exists n; rewrite Horc4; split; assumption|].
-  split; [|intros H; congruence]. intros _.
+  split; [|split; [intros H; congruence | rewrite Horc4; split; [exact Hb1 | intros; reflexivity]]]. intros _.
   (* unmap did not touch F *)
   assert (He4: forall f i, own1 f = None -> ent s4 f i = ent s3 f i).
   { intros f i Hf. destruct Herr4 as [E|E].
@@ -208,7 +213,7 @@ Proof.
   { apply (Inv_ent_eq (set_orc s r) s2 A A own); try reflexivity. eapply Inv_pop; eassumption. }
   assert (Hg: (prot s2 && (F =? zf s2)) = false) by (unfold s2; cbn [prot set_zf set_orc]; rewrite Hp; reflexivity).
   destruct (temp_map_spec s2 A own F HI2 Hg HbF HoF HnF) as
-      (s3 & err & pg & own1 & Hrun & Herr & HI3 & Henv3 & Ho1F & Hn1F & Hfr3 & (n & Hn & Hown) & Hok & Hfail).
+      (s3 & err & pg & own1 & Hrun & Herr & HI3 & Henv3 & Ho1F & Hn1F & Hfr3 & (n & Hn & Hown) & Hok & Hfail & _ & _).
   unfold reserve_zeroed, alloc. rewrite Eo. destruct (N.eqb_spec F 0); [congruence|].
   fold s2. rewrite Hrun.
   destruct Henv3 as (E1 & E2 & E3 & E4 & E5 & Ez & Ep & Epd & Ein).
